@@ -232,6 +232,24 @@ def run(ctx):
                fact=(str(g[0]) if g else 'no `name not in self.results` gate'),
                why=('only `uses` may add names' if not okm else 'an existing name can be overwritten'),
                key=f"results writer {m.name}")
+    # names are registered one at a time: a bulk registration (`results.update(..)`, `results |= ..`) cannot see two
+    # objects with one name inside the batch - the later one silently replaces the earlier
+    bulk = []
+    for m in recipe.methods.values():
+        if m.name == 'bake':
+            continue
+        for x in ast.walk(m.node):
+            if isinstance(x, ast.Call) and isinstance(x.func, ast.Attribute) and x.func.attr == 'update' and \
+                    unparse(x.func.value) == 'self.results':
+                bulk.append((m, x.lineno, unparse(x, 60)))
+            if isinstance(x, ast.AugAssign) and isinstance(x.op, ast.BitOr) and unparse(x.target) == 'self.results':
+                bulk.append((m, x.lineno, unparse(x, 60)))
+            if isinstance(x, ast.Assign) and any(unparse(t) == 'self.results' for t in x.targets) and m.name != '__init__':
+                bulk.append((m, x.lineno, unparse(x, 60)))
+    for m, line, txt in bulk:
+        ctx.ob('C16.R4', m, line, f"{m.name} registers names one at a time, each after its own uniqueness test", False, fact=txt,
+               why='two objects with the same name inside one batch are both accepted: the second replaces the first',
+               key=f"bulk registration in {m.name}")
     ctx.ob('C16.R4', recipe.methods['uses'], recipe.methods['uses'].node.lineno, '`uses` registers declared objects',
            any(m.name == 'uses' for m, *_ in writers), why='uses no longer stores the declared object',
            key='uses does not register', nontrivial=False)
